@@ -21,9 +21,15 @@ def run(chk):
     else:
         fams = [('grow', 3, 2, 3), ('del', 2, 2, 2), ('setitem', 3, 2, 3), ('setslice', 2, 1, 1), ('range', 2, 2, 2),
                 ('set', 2, 2, 2), ('replace', 2, 1, 1), ('bitwise', 2, 2, None)]
+    from concurrent.futures import ThreadPoolExecutor
+    vac_pool = ThreadPoolExecutor(max_workers=3)
+    vac = [vac_pool.submit(common.mc_core_vacuity, chk, f) for f in (['grow', 'setitem', 'set'] if thorough else ['grow'])]
     join_ref = common.run_ref_machine(chk, mc=False, procs=16 if thorough else 6, num=60 if thorough else 4, thorough=thorough)
     common.run_families(chk, fams, MUTABLE)
     join_ref()
+    for v_ in vac:
+        v_.result()
+    vac_pool.shutdown()
     chk.exhaustive = True
     common.run_random(chk, drivers.c03_program, 8000 if thorough else 1500, 3, huge=0.02 if thorough else 0.0)
     chk.flush()
